@@ -92,6 +92,26 @@ def be(x, n):
     return seq_from_items([VInt((x.t / (1 << (8 * (n - 1 - i)))) % 256) for i in range(n)])
 
 
+def be_n(x, n):
+    """big-endian encoding of x on n bytes, n symbolic (axiomatised s_be; element-wise
+    definition available to the solver for n <= smt.BE_EXPLICIT)"""
+    return VSeq(smt.s_be(_lift(x).t, _lift(n).t), 'byte', 'bytes')
+
+
+def be_val(s):
+    """big-endian integer value of a byte sequence (axiomatised s_val)"""
+    return VInt(smt.s_val(s.t))
+
+
+def pow256(n):
+    return VInt(smt.pow256(_lift(n).t))
+
+
+def ints(*xs):
+    """sequence (list of ints) built from the given int terms"""
+    return seq_from_items([_lift(x) for x in xs], 'int', 'list')
+
+
 def empty():
     return VSeq(smt.s_empty, 'byte')
 
@@ -186,6 +206,8 @@ class MacModel(object):
 
 
 REG.models['Mac'] = MacModel()
+from . import views  # noqa: registers the composite-iterable loop source
+from . import iters  # noqa: iterator objects, any/all, symbolic comprehensions
 
 
 def T_mac(empty_fed=True):
@@ -254,6 +276,10 @@ def _cipher_axioms():
 
 
 smt.AXIOMS.extend(_cipher_axioms())
+from .contract import EXT_PAIRS
+EXT_PAIRS.extend([('Dec', 2, 'Enc'), ('DecNext', 2, 'Enc'), ('Dec', 1, 'Enc', 1), ('DecNext', 1, 'Enc', 1),
+                  ('Open', 2, 'Seal'), ('OpenOk', 2, 'Seal'), ('Open', 1, 'Seal', 1), ('OpenOk', 1, 'Seal', 1),
+                  ('Open', 3, 'Seal', 3), ('OpenOk', 3, 'Seal', 3)])
 
 
 class CipherModel(object):
